@@ -195,3 +195,111 @@ Theorem C16_source_reception_report_roundtrip : forall r rest r0, D_rrep r = tru
   exists b, GoSrc.ReceptionReport_Marshal (src_rrep r) = Ok b /\ GoSrc.ReceptionReport_Unmarshal r0 (b ++ rest) = Ok (src_rrep r).
 Proof. exact source_reception_report_roundtrip. Qed.
 Print Assumptions C16_source_reception_report_roundtrip.
+
+(* BEGIN source-translation (generated by tools/mksourceprops.py; do not edit by hand) *)
+(* the unit round trips above restated on the functions translated from the Go source text on this run.
+   Gen/Funcs.v (module GoSrc) is written by srcgen/trans.go from /repo on every run; Lib/GoSem.v gives the meaning of its primitives. *)
+From RTCP Require Import Proofs.Tactics Lib.GoSem Gen.Funcs Check.GoOpaque Proofs.GoSemFacts Proofs.HeaderProofs
+  Model.Header Model.Reports Model.Sdes Model.ByeApp Model.Feedback Model.Twcc Model.Ccfb Model.Remb Model.Xr Model.Packet
+  Spec.Enc Spec.XrSpec Spec.Laws Proofs.Dgram Proofs.Assemble Proofs.Guards Proofs.PacketLevel Proofs.Reencode
+  Proofs.Misc Proofs.Extras Proofs.EncFeedback Proofs.Image1 Proofs.Image2 Proofs.Image3 Proofs.EncTwcc Proofs.TwccCorollaries Proofs.Total1 Proofs.Total2 Proofs.Total3
+  Proofs.SourceEquiv Proofs.SrcConv Proofs.SourceSR Proofs.SourceRR Proofs.SourceSdes Proofs.SourceByeApp
+  Proofs.SourceFeedback1 Proofs.SourceFeedback2 Proofs.SourceCcfb Proofs.SourceTwccEnc Proofs.SourceTwccDec
+  Proofs.SourcePacket Proofs.SourceCompound Proofs.SourceCompoundClosed.
+From RTCP Require Import Proofs.Tactics Lib.GoSem Gen.Funcs Check.GoOpaque Proofs.GoSemFacts Proofs.HeaderProofs
+  Model.Header Model.Reports Model.Sdes Model.ByeApp Model.Feedback Model.Twcc Model.Ccfb Model.Remb Model.Xr Model.Packet
+  Spec.Enc Spec.XrSpec Spec.Laws Spec.NackSpec Proofs.NackEnum Proofs.NackProofs
+  Proofs.Units Proofs.EncReports Proofs.EncSdesByeApp Proofs.EncFeedback Proofs.EncCcfbRemb Proofs.EncTwcc Proofs.TwccCorollaries
+  Proofs.Variants Proofs.PacketLevel Proofs.Extras
+  Proofs.SourceEquiv Proofs.SrcConv Proofs.SourceCorollaries Proofs.SourceSR Proofs.SourceRR Proofs.SourceSdes Proofs.SourceByeApp
+  Proofs.SourceFeedback1 Proofs.SourceFeedback2 Proofs.SourceCcfb Proofs.SourceTwccEnc Proofs.SourceTwccDec
+  Proofs.SourcePacket Proofs.SourceCompound Proofs.SourceCompoundClosed Proofs.SourceTheorems.
+From RTCP Require Import Lib.Base Lib.GoSem Gen.Consts Gen.Funcs Model.Header Model.Reports Model.Sdes Model.ByeApp Model.Feedback Model.Twcc Model.Ccfb Model.Packet Proofs.SourceEquiv Proofs.SrcConv Proofs.SourceSR Proofs.SourceRR Proofs.SourceSdes Proofs.SourceByeApp Proofs.SourceFeedback1 Proofs.SourceFeedback2 Proofs.SourceCcfb Proofs.SourceTwccEnc Proofs.SourceTwccDec Proofs.SourcePacket Proofs.SourceCompound Proofs.SourceCompoundClosed Proofs.SourceTheorems Proofs.SourceTheorems2.
+Module C16_SourceTheorems2.
+Import Proofs.SourceTheorems2.
+Local Open Scope N_scope.
+Theorem C16_src_run_length_words : forall w, w < 32768 ->
+  exists sym run, let c := RLC 0 sym run in
+    (forall r0, GoSrc.RunLengthChunk_Unmarshal r0 (be 2 w) = Ok (src_rlc c)) /\ Enc.chunk_ok c = true /\ Enc.chunk_word c = w /\
+    GoSrc.RunLengthChunk_Marshal (src_rlc c) = Ok (be 2 w).
+Proof. exact source_C16_run_length_words. Qed.
+Print Assumptions C16_src_run_length_words.
+Theorem C16_src_run_length_values : forall t sym run, sym < 4 -> run < 8192 ->
+  GoSrc.RunLengthChunk_Marshal (src_rlc (RLC t sym run)) = Ok (be 2 (Enc.chunk_word (RLC t sym run))) /\
+  forall r0, GoSrc.RunLengthChunk_Unmarshal r0 (be 2 (Enc.chunk_word (RLC t sym run))) = Ok (src_rlc (RLC 0 sym run)).
+Proof. exact source_C16_run_length_values. Qed.
+Print Assumptions C16_src_run_length_values.
+Theorem C16_src_status_vector_words : forall w, 32768 <= w < 65536 ->
+  exists t ss l, let c := SVC t ss l in
+    GoSrc.StatusVectorChunk_Unmarshal GoSrc.zero_StatusVectorChunk (be 2 w) = Ok (src_svc c) /\ Enc.chunk_ok c = true /\
+    Enc.chunk_word c = w /\ GoSrc.StatusVectorChunk_Marshal (src_svc c) = Ok (be 2 w).
+Proof. exact source_C16_status_vector_words. Qed.
+Print Assumptions C16_src_status_vector_words.
+Theorem C16_src_status_vector_values : forall t ss l, Enc.chunk_ok (SVC t ss l) = true ->
+  GoSrc.StatusVectorChunk_Marshal (src_svc (SVC t ss l)) = Ok (be 2 (Enc.chunk_word (SVC t ss l))) /\
+  GoSrc.StatusVectorChunk_Unmarshal GoSrc.zero_StatusVectorChunk (be 2 (Enc.chunk_word (SVC t ss l))) = Ok (src_svc (SVC t ss l)).
+Proof. exact source_C16_status_vector_values. Qed.
+Print Assumptions C16_src_status_vector_values.
+Theorem C16_src_small_deltas : forall v, v < 256 ->
+  (forall r0, GoSrc.RecvDelta_Unmarshal r0 [n2b v] = Ok (GoSrc.mkRecvDelta 1 (250 * Z.of_N v))) /\
+  GoSrc.RecvDelta_Marshal (GoSrc.mkRecvDelta 1 (250 * Z.of_N v)) = Ok [n2b v].
+Proof. exact source_C16_small_deltas. Qed.
+Print Assumptions C16_src_small_deltas.
+Theorem C16_src_large_deltas : forall w, w < 65536 ->
+  (forall r0, GoSrc.RecvDelta_Unmarshal r0 (be 2 w) = Ok (GoSrc.mkRecvDelta 2 (250 * int16_of w))) /\
+  GoSrc.RecvDelta_Marshal (GoSrc.mkRecvDelta 2 (250 * int16_of w)) = Ok (be 2 w).
+Proof. exact source_C16_large_deltas. Qed.
+Print Assumptions C16_src_large_deltas.
+Theorem C16_src_delta_values : forall d, delta_ok d = true ->
+  GoSrc.RecvDelta_Marshal (src_delta d) = Ok (enc_delta d) /\
+  forall r0, GoSrc.RecvDelta_Unmarshal r0 (enc_delta d) = Ok (src_delta d).
+Proof. exact source_C16_delta_values. Qed.
+Print Assumptions C16_src_delta_values.
+Theorem C16_src_metric_words : forall w, w < 65536 ->
+  (forall m0, GoSrc.CCFeedbackMetricBlock_unmarshal m0 (be 2 w) = Ok (src_metric (ccm_of_word w))) /\
+  D_metric (ccm_of_word w) = true /\
+  (32768 <= w \/ w = 0 -> GoSrc.CCFeedbackMetricBlock_marshal (src_metric (ccm_of_word w)) = Ok (be 2 w) /\
+                          enc_metric (ccm_of_word w) = be 2 w).
+Proof. exact source_C16_metric_words. Qed.
+Print Assumptions C16_src_metric_words.
+Theorem C16_src_metric_values : forall m, D_metric m = true ->
+  GoSrc.CCFeedbackMetricBlock_marshal (src_metric m) = Ok (enc_metric m) /\
+  forall m0, GoSrc.CCFeedbackMetricBlock_unmarshal m0 (enc_metric m) = Ok (src_metric m).
+Proof. exact source_C16_metric_values. Qed.
+Print Assumptions C16_src_metric_values.
+Theorem C16_src_reception_report : forall r rest, D_rrep r = true ->
+  GoSrc.ReceptionReport_Marshal (src_rrep r) = Ok (enc_rrep r) /\
+  forall r0, GoSrc.ReceptionReport_Unmarshal r0 (enc_rrep r ++ rest) = Ok (src_rrep r).
+Proof. exact source_C16_reception_report. Qed.
+Print Assumptions C16_src_reception_report.
+Theorem C16_src_loss_2_24_rejected : forall r, 2 ^ 24 <= rr_lost r -> GoSrc.ReceptionReport_Marshal (src_rrep r) = Err.
+Proof. exact source_C16_loss_2_24_rejected. Qed.
+Print Assumptions C16_src_loss_2_24_rejected.
+Theorem C16_src_nack_entries : forall p, D_NACK p = true ->
+  GoSrc.TransportLayerNack_Marshal (src_nack p) = Ok (enc_NACK p) /\
+  GoSrc.TransportLayerNack_Unmarshal GoSrc.zero_TransportLayerNack (enc_NACK p) = Ok (src_nack p).
+Proof. exact source_C16_nack_entries. Qed.
+Print Assumptions C16_src_nack_entries.
+Theorem C16_src_fir_entries : forall p, D_FIR p = true ->
+  GoSrc.FullIntraRequest_Marshal (src_fir p) = Ok (enc_FIR p) /\
+  GoSrc.FullIntraRequest_Unmarshal GoSrc.zero_FullIntraRequest (enc_FIR p) = Ok (src_fir p).
+Proof. exact source_C16_fir_entries. Qed.
+Print Assumptions C16_src_fir_entries.
+Theorem C16_src_sli_word : forall p, D_SLI p = true ->
+  GoSrc.SliceLossIndication_Marshal (src_sli p) =
+    Ok (frame false 2 205 (be 4 (sli_sender p) ++ be 4 (sli_media p) ++
+          List.concat (map (fun e => be 4 (sli_first e * 2 ^ 19 + sli_number e * 2 ^ 6 + sli_picture e)) (sli_entries p)))) /\
+  GoSrc.SliceLossIndication_Unmarshal GoSrc.zero_SliceLossIndication (enc_SLI_pion p) = Ok (src_sli p).
+Proof. exact source_C16_sli_word. Qed.
+Print Assumptions C16_src_sli_word.
+Theorem C16_src_sli_word_bits : forall e, D_slie e = true ->
+  Z.lor (Z.lor (uwrap 32 (gshl (Z.land (Z.of_N (sli_first e)) 8191) 19))
+               (uwrap 32 (gshl (Z.land (Z.of_N (sli_number e)) 8191) 6)))
+        (Z.land (Z.of_N (sli_picture e)) 63) = Z.of_N (sli_first e * 2 ^ 19 + sli_number e * 2 ^ 6 + sli_picture e) /\
+  forall w, w = sli_first e * 2 ^ 19 + sli_number e * 2 ^ 6 + sli_picture e ->
+  GoSrc.mkSLIEntry (uwrap 16 (Z.land (gshr (Z.of_N w) 19) 8191)) (uwrap 16 (Z.land (gshr (Z.of_N w) 6) 8191))
+                   (uwrap 8 (Z.land (Z.of_N w) 63)) = src_slie e.
+Proof. exact source_C16_sli_word_bits. Qed.
+Print Assumptions C16_src_sli_word_bits.
+End C16_SourceTheorems2.
+(* END source-translation *)
